@@ -113,7 +113,7 @@ theorem agree_enum (vs : List (Bytes × VariantShape)) (f t : Nat) (v : JV) (hv 
   rw [deTyped_enum]
   cases v with
   | str variant =>
-    have hu : Spec.Utf8.validUtf8 variant = true := by simpa [shapeW] using hv.1
+    have hu : Spec.Utf8.validUtf8 variant = true := by simpa [VOK, shapeW] using hv
     have hTq : T ext (.str variant) = quote variant := by rw [T_str_eq, quote_eq]
     have hde : deEnum env t (deTyped env f) vs (quote variant ++ rest) pos =
         (deVariantId env (variantNames vs) (quote variant ++ rest) pos).bind fun iv r1 p1 =>
